@@ -1,16 +1,25 @@
-/* C12 H-errpush: plain loop implementation of the C library's strncpy for CBMC runs (C99 7.21.2.4: copies at
- * most n characters, then pads with NUL up to n).  CBMC's built-in strncpy model carries string-abstraction
- * preconditions and per-iteration checks that made two 1023-byte copies into the 33 KiB error ring run for
- * more than five minutes; this body is the textbook definition and reads the source only up to its terminator.
- * Compiles to nothing under -DREPLAY (the native replay uses the C library). */
+/* C12 H-errpush: the C library's strncpy for CBMC runs (C99 7.21.2.4: copies at most n characters of src, then
+ * pads with NUL up to n), exact for sources shorter than C12_STRNCPY_CAP characters (asserted, not assumed):
+ * the first min(n, CAP) bytes are written one by one, the rest of the padding with one memset of constant size.
+ * Why not CBMC's built-in model or a plain loop: KSI_ERR_push copies into 1024-byte fields of the 33 KiB error
+ * ring; 4 x 1023 single-byte stores into that object took symex longer than five minutes (each store re-writes
+ * the whole array expression).  Compiles to nothing under -DREPLAY (the native replay uses the C library). */
 #ifndef REPLAY
 #include <stddef.h>
+#include <string.h>
+#ifndef C12_STRNCPY_CAP
+#define C12_STRNCPY_CAP 8
+#endif
 char *strncpy(char *dst, const char *src, size_t n) {
 	int done = 0;
-	for (size_t i = 0; i < n; i++) {
+	for (size_t i = 0; i < C12_STRNCPY_CAP; i++) if (i < n) {
 		char c = 0;
 		if (!done) { c = src[i]; if (c == 0) done = 1; }
 		dst[i] = c;
+	}
+	if (n > C12_STRNCPY_CAP) {
+		__CPROVER_assert(done, "strncpy model: source shorter than the modelled bound");
+		memset(dst + C12_STRNCPY_CAP, 0, n - C12_STRNCPY_CAP);
 	}
 	return dst;
 }
